@@ -81,7 +81,84 @@ func genC04Shapes() {
 	g.def("resolve_sibling_range", "string", coqStr(over), "what the sibling loop ranges over")
 	g.def("apk_index_options", "list string", coqStrList(c04ApkIndexOptions(findFunc("pkg/apk/apk/repo.go", "APK", "GetRepositoryIndexes"))),
 		"(*APK).GetRepositoryIndexes: the signature-related options handed to GetRepositoryIndexes ($a = the receiver, $ignore = the argument)")
+	g.def("rsa_verify_steps", "list string", coqStrList(c04RsaSteps(findFunc("pkg/apk/signature/rsa.go", "", "RSAVerifyDigest"))),
+		"RSAVerifyDigest, statement by statement ($digest,$type,$sig,$key = the parameters, $v<n> = locals in order of first assignment, err = any non-nil error)")
 	g.write()
+}
+
+// c04RsaSteps: the straight-line body of RSAVerifyDigest in canonical text
+func c04RsaSteps(fd *ast.FuncDecl) []string {
+	const unk = "<unrecognised>"
+	if fd == nil || fd.Body == nil {
+		return []string{unk}
+	}
+	ps := c04Params(fd)
+	if len(ps) != 4 {
+		return []string{unk}
+	}
+	sub := map[string]string{ps[0]: "$digest", ps[1]: "$type", ps[2]: "$sig", ps[3]: "$key"}
+	n := 0
+	name := func(e ast.Expr) string {
+		id, ok := e.(*ast.Ident)
+		if !ok {
+			return c04Canon(e, sub)
+		}
+		if id.Name == "_" {
+			return "_"
+		}
+		if _, ok := sub[id.Name]; !ok {
+			n++
+			sub[id.Name] = fmt.Sprintf("$v%d", n)
+		}
+		return sub[id.Name]
+	}
+	ret := func(rs *ast.ReturnStmt) string {
+		if len(rs.Results) == 1 && exprText(rs.Results[0]) == "nil" {
+			return "return nil"
+		}
+		if len(rs.Results) == 1 {
+			return "return err"
+		}
+		return unk
+	}
+	var out []string
+	assign := func(as *ast.AssignStmt) {
+		var rhs []string
+		for _, r := range as.Rhs {
+			rhs = append(rhs, c04Canon(r, sub)) // the right-hand side is read before the left-hand side is named
+		}
+		var lhs []string
+		for _, l := range as.Lhs {
+			lhs = append(lhs, name(l))
+		}
+		out = append(out, strings.Join(lhs, ",")+"="+strings.Join(rhs, ","))
+	}
+	for _, st := range fd.Body.List {
+		switch x := st.(type) {
+		case *ast.AssignStmt:
+			assign(x)
+		case *ast.IfStmt:
+			if x.Init != nil {
+				if as, ok := x.Init.(*ast.AssignStmt); ok {
+					assign(as)
+				} else {
+					out = append(out, unk)
+				}
+			}
+			if x.Else == nil && len(x.Body.List) == 1 {
+				if rs, ok := x.Body.List[0].(*ast.ReturnStmt); ok {
+					out = append(out, "if "+c04Canon(x.Cond, sub)+" "+ret(rs))
+					continue
+				}
+			}
+			out = append(out, unk+": "+strings.Join(strings.Fields(exprText(st)), " "))
+		case *ast.ReturnStmt:
+			out = append(out, ret(x))
+		default:
+			out = append(out, unk+": "+strings.Join(strings.Fields(exprText(st)), " "))
+		}
+	}
+	return out
 }
 
 func c04RecvName(fd *ast.FuncDecl) string {
@@ -218,6 +295,8 @@ func c04Canon(e ast.Expr, sub map[string]string) string {
 		return c04Canon(x.X, sub) + "[" + c04Canon(x.Low, sub) + ":" + c04Canon(x.High, sub) + "]"
 	case *ast.StarExpr:
 		return "*" + c04Canon(x.X, sub)
+	case *ast.TypeAssertExpr:
+		return c04Canon(x.X, sub) + ".(" + strings.Join(strings.Fields(exprText(x.Type)), "") + ")"
 	case *ast.UnaryExpr:
 		if x.Op == token.NOT {
 			// !(a != b) is a == b, !(a == b) is a != b, !!a is a
